@@ -18,9 +18,9 @@ PROPS = {
         "module": "SimilarVerif.Props.C01",
         "suites": ["raw", "deadline"],
         "rule": "raw: all sequence pairs up to length 4 (thorough 5) over 3 symbols x 3 algorithms, all sub-range pairs of pairs up to length 3 (thorough 4) with slice and offset lookups, plus structured random pairs (7 families); non-trivial = at least one change and one equal item; distinct by request hash",
-        "theorem_status": "LCS full (total + valid, every clock). Myers full (total + valid, every clock): Myers' middle-snake theory is formalised (furthest-reaching invariant, overlap at ceil(D/2), split point on an optimal path inside the box, not a corner) and discharges SnakeInBox/SnakeFound for every environment. Patience: valid whenever it returns (no hypotheses); totality of the composite not yet a theorem. Replay/coverage corollaries.",
+        "theorem_status": "LCS full (total + valid, every clock). Myers full (total + valid, every clock): Myers' middle-snake theory is formalised (furthest-reaching invariant, overlap at ceil(D/2), split point on an optimal path inside the box, not a corner) and discharges SnakeInBox/SnakeFound for every environment. Patience full (total + valid, every clock; needs the same-side comparisons of `unique` in bounds). Replay/coverage corollaries.",
         "level_text": "Lean theorems: LCS total+valid (all inputs, ranges, clocks); Myers partial correctness relative to the explicit hypothesis SnakeInBox; replay and coverage corollaries. Exact call traces, comparison and probe counts of all three algorithms are compared with the model on exhaustive small scopes and random inputs, and an independent strict walker validates the implementation's streams.",
-        "level_note": "Patience totality is not yet proved; the model is tied to the code by differential testing only; release-build wrap-around of usize is modelled as a panic (checked build)",
+        "level_note": "the model is tied to the code by differential testing only; release-build wrap-around of usize is modelled as a panic (checked build)",
         "assumptions": ["usize arithmetic modelled on Nat; overflow out of scope", "shift invariance of sub-range diffs is validated on the implementation (suite raw), not a theorem"],
     },
     "C10": {
@@ -123,9 +123,9 @@ PROPS.update({
         "module": "SimilarVerif.Props.C15",
         "suites": ["raw", "cap"],
         "rule": "raw/cap as for C01/C02; for every Patience run (raw and captured) the validator computes the longest common in-order subsequence of the items unique on both sides by brute force and compares with the number of such items reported Equal",
-        "theorem_status": "pairing clause full (an anchored item is matched to its unique counterpart) on top of Patience soundness (unconditional partial correctness); the size clause needs Myers minimality on the unique lists (theory in progress), covered by the brute-force LIS validator",
+        "theorem_status": "full: pairing clause (an anchored item is matched to its unique counterpart) and size clause (a chain of lcsLen(unique old, unique new) anchor pairs is reported Equal: the outer Myers run over the unique lists is optimal and every pair it reports reaches the user stream), raw stream, no deadline; the captured variant follows from C10 (the clean-up never moves deletions and keeps counts) and is validated by the brute-force LIS validator",
         "level_text": "Lean theorems: Patience streams are valid scripts; equal segments pair equal items, hence unique items their counterparts; unique() is ascending and in range.",
-        "level_note": "size clause not yet a theorem",
+        "level_note": "the captured-ops variant of the size clause is validated, not a separate theorem",
     },
     "C19": {
         "title": "Myers and Patience do work proportional to (N+M)*(D+1)",
@@ -133,9 +133,9 @@ PROPS.update({
         "module": "SimilarVerif.Props.C19",
         "suites": ["cost"],
         "rule": "cost: 700 (thorough 6000) generated pairs up to 600 (thorough 3000) items per side from 7 families (near-identical, block moves, periodic, heavy repeats, unrelated, unique-rich, small alphabet) x Myers and Patience; comparisons counted by the element type; non-trivial = near-identical (D*8 < N+M)",
-        "theorem_status": "partial: per-scan cost bounds (unconditional); the D-dependent bound needs the iteration count of the middle-snake search (theory in progress) and is established by measurement against c = 2 only",
+        "theorem_status": "Myers full: cmps <= 22 (N+M+1)(D+1) for every input without deadline (potential argument + middle-snake theory); per-scan costs; Patience: each of its Myers runs obeys the bound, the composite bound with D = its own script is measured (cross and same-side comparisons, constant 3 / 8 per item)",
         "level_text": "Lean theorems for the cost of the prefix/suffix scans; the cost model (exact comparison counts) is validated against the code on every request of every suite; the (N+M+1)(D+1) bound is checked by measurement.",
-        "level_note": "the main bound is not a theorem yet; wall-clock time is not modelled, comparisons are the proxy the property names",
+        "level_note": "the proved constant (22) is far from the measured one (< 0.9); the Patience composite bound is not a theorem; wall-clock time is not modelled, comparisons are the proxy the property names",
     },
     "C20": {
         "title": "Diffs are deterministic and depend only on the equality pattern of the items",
